@@ -59,4 +59,20 @@ theorem lookup_ext_some {o : Nat} {ep : List Nib} {c : Node} {p : List Nib} {b :
     · exact ⟨p', splitCommon_eq_nil_right heq, h⟩
   · cases h
 
+theorem lookup_ext_congr {o₁ o₂ : Nat} {ep : List Nib} {c₁ c₂ : Node} (h : ∀ q, lookup c₁ q = lookup c₂ q) :
+    ∀ q, lookup (.ext o₁ ep c₁) q = lookup (.ext o₂ ep c₂) q := by
+  intro q
+  rw [lookup, lookup]
+  split
+  · rw [h]
+  · rfl
+
+theorem lookup_full_congr {o₁ o₂ : Nat} {ch₁ ch₂ : Nib → Node} {val : Option Bytes}
+    (h : ∀ i q, lookup (ch₁ i) q = lookup (ch₂ i) q) :
+    ∀ q, lookup (.full o₁ ch₁ val) q = lookup (.full o₂ ch₂ val) q := by
+  intro q
+  cases q with
+  | nil => rw [lookup_full_nil, lookup_full_nil]
+  | cons x r => simpa using h x r
+
 end Verif.Mpt
